@@ -198,7 +198,7 @@ fn run_path(c: &Case, path: Path, drv: Option<&mut Driver>, verbose: bool) -> Pa
     let last = ops.len() - 1;
     let vq = vec_queries(c);
     let mut drv = drv;
-    let mut once = |drv: Option<&mut Driver>| -> (Vec<bool>, Option<Snap>, Option<Snap>, Outcome) {
+    let once = |drv: Option<&mut Driver>| -> (Vec<bool>, Option<Snap>, Option<Snap>, Outcome) {
         let mut acks: Vec<bool> = vec![];
         let mut live: Option<Snap> = None;
         let mut reopened: Option<Snap> = None;
@@ -399,13 +399,13 @@ fn record(sum: &mut Summary, label: &str, c: &Case, runs: &[PathRun], fail: Opti
         if let Some((what, m, i)) = &r.out.disagree {
             let cut = |s: &str| s.chars().take(1500).collect::<String>();
             sum.disagreement(&format!("{n} path: {what}"), case_json(c), &cut(m), &cut(i));
-            return;
+            break;
         }
         if let (Some(ml), Some(s)) = (&r.model_lexn, &r.reopened) {
             let il = s.lex_docs.trim_start_matches("Some(").trim_end_matches(')').to_string();
             if s.lex_docs != "None" && *ml != il {
                 sum.disagreement(&format!("{n} path: engine document count after reopen"), case_json(c), ml, &il);
-                return;
+                break;
             }
         }
     }
